@@ -3083,6 +3083,35 @@ for _nm in ('ac2poly', 'ac2rc'):
     THEOREMS[_nm] = dict(proof=AC2_PROOF, theorems=['loopir_%s_complex' % _nm, 'loopir_%s_real' % _nm, 'loopir_%s_tie' % _nm], block=ac2_block(_nm, None))
 
 
+# ---------------------------------------------------------------- rc2poly: levup_ir_run through the call, induction over the range (T6)
+RC2POLY_PROOF = 'Proofs/LoopIRRc2poly.v'
+RC2POLY_THEOREMS = ['loopir_rc2poly_model', 'loopir_rc2poly_tie']
+RC2POLY_BLOCK = """
+(* The program of rc2poly regenerated on this run - a loop over the embedded levup - is, term for term, the one Proofs/LoopIRRc2poly.v is about. *)
+Require Import Spectrum.Theory.Ops Spectrum.Theory.Vec Spectrum.Model.Levinson Spectrum.Model.LinPred Spectrum.Model.LoopIRTie Spectrum.Model.LoopIRWrap
+               Spectrum.Proofs.LoopIRRc2poly.
+Lemma prog_rc2poly_is_ref : prog_rc2poly = prog_rc2poly_ref.
+Proof. reflexivity. Qed.
+(* ANY reflection coefficients (any dtype tag, the empty sequence included), r0 omitted (= 0) or given, every equality test with 1 == 1 *)
+Theorem loopir_rc2poly_model :
+  forall (F : Type) (OF : Ops F) (L : Laws OF) (feq : F -> F -> bool) (stop : Z -> F -> F -> bool), feq 1%F 1%F = true ->
+  forall (tk : bool) (kr : list F) (r0 : option F),
+  run feq stop prog_rc2poly [Some (VArr tk kr); option_map VF r0] =
+  match rc2poly kr (match r0 with Some z => z | None => 0%F end) with
+  | Some (a, e) => ORet [VArr false a; VF e]
+  | None => OErr IndexError
+  end.
+Proof. intros. rewrite prog_rc2poly_is_ref. apply (rc2poly_ir_run feq stop); assumption. Qed.
+Theorem loopir_rc2poly_tie :
+  forall (F : Type) (OF : Ops F) (L : Laws OF) (feq : F -> F -> bool), (forall a, feq a a = true) ->
+  forall (tk : bool) (kr : list F) (r0 : option F), tie_rc2poly feq prog_rc2poly tk kr r0 = true.
+Proof. intros. rewrite prog_rc2poly_is_ref. apply rc2poly_ir_tie; assumption. Qed.
+Print Assumptions loopir_rc2poly_model.
+Print Assumptions loopir_rc2poly_tie.
+"""
+THEOREMS['rc2poly'] = dict(proof=RC2POLY_PROOF, theorems=RC2POLY_THEOREMS, block=RC2POLY_BLOCK)
+
+
 def reference_text_in(proof, name):
     """the program text of <name> that <proof> was proved about (between its BEGIN/END GENERATED <name> markers)"""
     t = open(os.path.join(vlib.COQ, proof)).read()
@@ -3093,8 +3122,8 @@ def reference_text_in(proof, name):
 TRUSTED_LINE = ("loop-IR tie: the translator tools/props/_loopir.py (Python ast -> IR, fail-closed) and the IR interpreter coq/Model/LoopIR.v "
                 "(semantics of the accepted Python/numpy fragment; arrays by value, no rounding) are trusted; the IR program is regenerated from the "
                 "snapshot source on every run and evaluated exactly (QcC, zero tolerance) against the hand-written model; for LEVINSON, CORRELATION, "
-                "levup, levdown, HERMTOEP, TOEPLITZ, arburg (with and without an order-selection criterion), the psi loop of minvar and - by composition of the CORRELATION and LEVINSON theorems through the call semantics - the wrapper aryule `run program = model` is moreover a theorem (for rlevinson and the two Marple recursions: argument checks and orders 0/1) for all inputs (Proofs/LoopIR*.v), "
-                "the wrappers ma, ac2poly, ac2rc, poly2ac, poly2rc, ar2rc, rc2poly, rc2ac are translated with their callees (functions of other modules of the package, imports resolved syntactically, fail-closed) embedded and evaluated exactly on sampled inputs, "
+                "levup, levdown, HERMTOEP, TOEPLITZ, arburg (with and without an order-selection criterion), the psi loop of minvar and - by composition of the CORRELATION and LEVINSON theorems through the call semantics - the wrappers aryule, ma, ac2poly, ac2rc, rc2poly `run program = model` is moreover a theorem (for rlevinson and the two Marple recursions: argument checks and orders 0/1) for all inputs (Proofs/LoopIR*.v), "
+                "all nine wrappers (aryule, ma, ac2poly, ac2rc, poly2ac, poly2rc, ar2rc, rc2poly, rc2ac) are translated with their callees (functions of other modules of the package, imports resolved syntactically, fail-closed) embedded and evaluated exactly on sampled inputs, "
                 "claimed only while the regenerated program text is the one the proof is about (compared on every run, reflexivity inside Coq)")
 
 
